@@ -130,7 +130,9 @@ void spec_drbg_feed(spec_drbg_t *d, const unsigned char *data, size_t len)
     for (size_t i = 0; i < len; ++i) buf[33 + i] = data[i];
     spec_hash_df(d->V, buf, 33 + len);
     drbg_new_C(d);
-    d->reseed_counter += 1;       /* documented deviation: feed only brings the reseed closer */
+    /* documented deviation: feed does not reset the counter, it only brings the reseed closer;
+     * a 32-bit counter therefore saturates instead of wrapping */
+    if (d->reseed_counter != 0xFFFFFFFFu) d->reseed_counter += 1;
 }
 void spec_drbg_block(spec_drbg_t *d, unsigned char out[32])
 {
